@@ -8,7 +8,9 @@ Open Scope N_scope.
 Theorem C15_py_rs_agree_refuted :
   exists ops, run py_write py_pixel lcd0 ops <> run rs_write py_pixel lcd0 ops.
 Proof. exists [LWrite 8193 1; LState]. vm_compute. discriminate. Qed.
+Print Assumptions C15_py_rs_agree_refuted.
 
 (* the two display functions differ when a chip is off or scrolled *)
 Theorem C15_display_refuted : exists s r c, py_pixel s r c <> rs_pixel s r c.
 Proof. exists lcd0, 0, 0. vm_compute. discriminate. Qed.
+Print Assumptions C15_display_refuted.
